@@ -403,7 +403,7 @@ def nontrivial(stats):
 
 def plan(tier, seed):
     quick = tier == "quick"
-    return [("gen", {"shard": i, "n": 80 if quick else 1500, "max_ops": 25 if quick else 40}) for i in range(16)]
+    return [("gen", {"shard": i, "n": 150 if quick else 1500, "max_ops": 25 if quick else 40}) for i in range(16)]
 
 
 def run_task(name, kw, ctx):
